@@ -396,6 +396,22 @@ pub fn record(seed: u64, tier: &str, out_path: &str) {
             }
         }
     }
+    // messages of exactly the largest sizes in scope (65 528, 65 532, 65 536 bytes) with an offset at and around the end of
+    // the input and of the value area (narrowed offset types, off-by-one bounds)
+    for total in [65_528usize, 65_532, 65_536] {
+        for nt in [2usize, 3] {
+            let hdr = 8 * nt;
+            let vlen = total - hdr;
+            for target in [vlen as u32 - 8, vlen as u32 - 4, vlen as u32, vlen as u32 + 4, total as u32 - 4, total as u32, total as u32 + 4, 65_532, 65_536, 65_540] {
+                let mut b: Vec<u8> = (nt as u32).to_le_bytes().to_vec();
+                for k in 1..nt { let o: u32 = if k == nt - 1 { target } else { 4 }; b.extend_from_slice(&o.to_le_bytes()); }
+                for k in 0..nt { b.extend_from_slice(&rc::tag_wire([1u64, 4, 18][k])); }
+                b.resize(total, 0x3c);
+                writeln!(out, "{}", event_of(&b, "maxsize", None)).unwrap();
+                events += 1;
+            }
+        }
+    }
     // many fields: counts beyond the 18 known tags (no such message can be valid) with well-formed offset tables of several
     // shapes, cut off after the offsets, after the tags, or complete
     for nt in (2u32..=40).chain([63, 64, 65, 100, 255, 256, 512, 1023, 1024, 1025]) {
